@@ -50,12 +50,27 @@ def check(fb, ctx):
         tests[kind] = (i, strip(e["cond"]), e)
     where = f"{rb['file']}:{loops[0]['ln']}"
 
+    def resolve(n, depth=0):
+        """a local bound once by an immutable `let` stands for its initialiser (`let merged_len = self.facts.len();`)"""
+        n = strip(n)
+        while isinstance(n, dict) and n.get("k") == "cast":
+            n = strip(n["e"])
+        if depth < 4 and isinstance(n, dict) and n.get("k") == "path" and (n.get("res") or {}).get("dk") == "Local":
+            lets_ = [l for l in find_all(rh["body"], lambda z: z.get("k") == "let" and isinstance(z.get("pat"), dict) and z["pat"].get("k") == "bind" and z["pat"].get("id") == n["res"]["id"] and z.get("init") is not None and "Mut" not in str(z["pat"].get("mode", "")).split(",")[-1])]
+            asg_ = find_all(rh["body"], lambda z: z.get("k") in ("assign", "assignop") and hirq.is_lid(strip(z.get("lhs")), {n["res"]["id"]}))
+            if len(lets_) == 1 and not asg_:
+                return resolve(lets_[0]["init"], depth + 1)
+        return n
+
     def cmp_ok(c, left_pred, right_pred, name, key):
         if not (isinstance(c, dict) and c.get("k") == "binary"):
             ctx.fail("MONOTONE", name, key, "budget test is not a comparison", where)
             return False
         op = c["op"]
         a, b = strip(c["a"]), strip(c["b"])
+        lp0, rp0 = left_pred, right_pred
+        left_pred = lambda n_: lp0(n_) or lp0(resolve(n_))       # as written, or through an immutable local
+        right_pred = lambda n_: rp0(n_) or rp0(resolve(n_))
         fwd = op in ("Ge", "Gt") and left_pred(a) and right_pred(b)
         rev = op in ("Le", "Lt") and left_pred(b) and right_pred(a)
         if op in ("Eq", "Ne"):
@@ -133,6 +148,8 @@ def check(fb, ctx):
         exec_ids = hirq.let_ids(h["body"], lambda z: bool(find_all(z, lambda y: hirq.calls_path(y, r"Authorizer::run$"))))
         guard = [n for n in find_all(h["body"], lambda n: n.get("k") == "if") if (lambda c: c.get("k") == "binary" and c.get("op") in ("Ge", "Gt") and hirq.is_lid(strip(c["a"]), exec_ids) and field_of(c["b"], "limits", "max_time"))(strip(n["cond"])) and runlimit_kind(n["then"]) == "Timeout" and find_all(n["then"], lambda z: z.get("k") == "ret")]
         sub = [n for n in find_all(h["body"], lambda n: n.get("k") == "assignop" and n["op"] == "SubAssign" and field_of(n["lhs"], "limits", "max_time") and hirq.is_lid(strip(n["rhs"]), exec_ids))]
+        # equivalent: `max_time: <limits>.max_time - execution_time` in a struct literal / a let
+        sub += [n for n in find_all(h["body"], lambda n: n.get("k") == "binary" and n.get("op") == "Sub" and field_of(n["a"], "limits", "max_time") and hirq.is_lid(strip(n["b"]), exec_ids))]
         order_ok = bool(guard) and bool(sub) and guard[0]["ln"] < sub[0]["ln"]
         ctx.check(order_ok, "ACCOUNT", f"Authorizer::{fn}: remaining time computed after the `>=` guard", f"ACCOUNT|{fn}|time", "`limits.max_time -= execution_time` must follow `if execution_time >= limits.max_time { return Err(Timeout) }`", f"{b['file']}:{b['line']}")
     # time consumed by a run that FAILED also counts ("counted cumulatively across run, authorize and query calls"): every path
